@@ -15,7 +15,10 @@ import subprocess
 import sys
 from pathlib import Path
 
+import os
+
 SEEDED = Path("/verif/seeded")
+REPO = os.environ.get("VERIF_REPO", "/repo")  # evaluation target (a scratch worktree while /repo is busy)
 
 
 def sh(cmd: str, cwd: str | None = None, timeout: int = 1800) -> tuple[int, str]:
@@ -72,24 +75,24 @@ def evaluate(name: str, props: list[str]) -> int:
     d = SEEDED / name
     meta = json.loads((d / "meta.json").read_text())
     props = props or [meta["property"]]
-    dirty = sh("git -C /repo status --porcelain")[1].strip()
+    dirty = sh(f"git -C {REPO} status --porcelain -- src tests")[1].strip()
     if dirty:
-        print("refusing: /repo is not clean")
+        print(f"refusing: {REPO} is not clean")
         return 2
-    rc, out = sh(f"git -C /repo apply {d / 'patch.diff'}")
+    rc, out = sh(f"git -C {REPO} apply {d / 'patch.diff'}")
     if rc != 0:
-        print("patch does not apply to /repo:", out[-300:])
+        print(f"patch does not apply to {REPO}:", out[-300:])
         return 2
     try:
         for pid in props:
             rc, out = sh(f"cd /verif && /venv/bin/python -m vf.check {pid} --tier quick")
             verdict = [l for l in out.splitlines() if l.startswith(("VIOLATION", "HELD", "INCONCLUSIVE"))]
             wit = [l for l in out.splitlines() if l.startswith("witness:")]
-            meta["detected_by"][pid] = {"tier": "quick", "exit": rc, "verdict": verdict[0][:200] if verdict else out[-200:],
+            meta["detected_by"][pid] = {"tier": "quick", "exit": rc, "evaluated_on": REPO, "verdict": verdict[0][:200] if verdict else out[-200:],
                                         "first_witness": wit[0][:400] if wit else None}
             print(name, pid, "rc=", rc, "CAUGHT" if rc == 1 else "MISSED")
     finally:
-        sh("git -C /repo checkout -- .")
+        sh(f"git -C {REPO} checkout -- src tests")
     (d / "meta.json").write_text(json.dumps(meta, indent=1))
     return 0
 
